@@ -49,7 +49,10 @@ type SolverStats struct {
 func solverArgs(kind string, timeoutMs int) (string, []string) {
 	switch kind {
 	case "cvc5":
-		return "cvc5", []string{"--incremental", "--lang=smt2", "--produce-models", "--strings-exp", fmt.Sprintf("--tlimit-per=%d", timeoutMs)}
+		return "cvc5", []string{"--incremental", "--lang=smt2", "--produce-models", fmt.Sprintf("--tlimit-per=%d", timeoutMs)}
+	case "cvc5-int":
+		// bit-vectors solved as integers with mod-2^k semantics: decides decimal (multiply-by-constant) kernels that bit-blasting does not
+		return "cvc5", []string{"--incremental", "--lang=smt2", "--produce-models", "--solve-bv-as-int=sum", fmt.Sprintf("--tlimit-per=%d", timeoutMs)}
 	case "z3":
 		return "z3", []string{"-in", fmt.Sprintf("-t:%d", timeoutMs)}
 	default:
@@ -442,4 +445,82 @@ func evalValue(v interface{}) (uint64, bool) {
 		}
 	}
 	return 0, false
+}
+
+
+// Portfolio tries several solver processes in order until one gives a definite answer.
+type Portfolio struct {
+	Solvers []*Solver
+	Stats   *SolverStats
+	ByKind  map[string]int
+}
+
+func NewPortfolio(ctx *Ctx, kinds []string, timeouts []int) (*Portfolio, error) {
+	p := &Portfolio{Stats: &SolverStats{}, ByKind: map[string]int{}}
+	for i, k := range kinds {
+		s, err := NewSolver(k, ctx, timeouts[i])
+		if err != nil {
+			p.Close()
+			return nil, err
+		}
+		p.Solvers = append(p.Solvers, s)
+	}
+	return p, nil
+}
+
+func (p *Portfolio) Close() {
+	for _, s := range p.Solvers {
+		s.Close()
+	}
+}
+
+func (p *Portfolio) SetLog(w io.Writer) {
+	if len(p.Solvers) > 0 {
+		p.Solvers[0].Log = w
+	}
+}
+
+func (p *Portfolio) Check(asserts []*Term, modelVars []*Term) (SatResult, map[string]uint64, error) {
+	t0 := time.Now()
+	var lastErr error
+	res := Unknown
+	var model map[string]uint64
+	order := p.Solvers
+	hard := 0
+	for _, a := range asserts {
+		if a.NMul > hard {
+			hard = a.NMul
+		}
+	}
+	if hard >= 8 && len(p.Solvers) >= 2 && p.Solvers[1].Kind == "cvc5-int" {
+		// decimal kernels (long multiply-by-constant chains): the integer encoding first
+		order = append([]*Solver{p.Solvers[1], p.Solvers[0]}, p.Solvers[2:]...)
+	}
+	for _, s := range order {
+		r, m, err := s.Check(asserts, modelVars)
+		if err != nil {
+			lastErr = err
+			continue
+		}
+		if r != Unknown {
+			res, model, lastErr = r, m, nil
+			p.ByKind[s.Kind]++
+			break
+		}
+	}
+	dt := time.Since(t0)
+	p.Stats.Queries++
+	p.Stats.Time += dt
+	if dt > p.Stats.MaxQuery {
+		p.Stats.MaxQuery = dt
+	}
+	switch res {
+	case Sat:
+		p.Stats.Sat++
+	case Unsat:
+		p.Stats.Unsat++
+	default:
+		p.Stats.Unknown++
+	}
+	return res, model, lastErr
 }
